@@ -303,6 +303,22 @@ func Replay(in string, w *ev.Writer) error {
 					}
 				}
 				res["match"] = allOK
+			case "Rej":
+				// bytes the schema does not define (TlSem!Dec refuses them): the generated UnmarshalTL must refuse them too
+				t, ok := p.Types[v.Ty]
+				if !ok {
+					return fmt.Errorf("schema %d: no Go type for %s", si.Schema, v.Ty)
+				}
+				_, rest, uerr, pan := unmarshal(t, data)
+				if pan != "" {
+					fail("unmarshal panic=%q", pan)
+					break
+				}
+				if uerr == nil {
+					fail("bytes outside the schema's layout were accepted (unread=%d)", rest)
+					break
+				}
+				res["match"] = true
 			case "Fn":
 				tag, name, val, derr := p.Decode(append([]byte{}, data...))
 				d := s.Fn(v.Ty)
